@@ -15,10 +15,12 @@ GenInit ==
     /\ lab \in Labels /\ klen \in 1 .. MAXLEN /\ stopped = FALSE
     \* role "source": attacker 1 first becomes a piece source (a Starter message, unchoke); afterwards its request-timeout
     \* timer is part of the environment (fire / delivery interleaved with its messages, choke / unchoke favoured)
-    /\ role \in {"any1", "any2", "source"}
-    /\ role = "source" => lab \in {"down", "stopping", "verify"}      \* states in which a download can start (now / at replay)
+    \* role "afsource" (round 3): attacker 1 first grants allowed-fast pieces and then becomes a piece source while it is
+    \* still choking: the download is an allowed-fast download; choke / unchoke / blocks of the download favoured afterwards
+    /\ role \in {"any1", "any2", "source", "afsource"}
+    /\ role \in {"source", "afsource"} => lab \in {"down", "stopping", "verify"}      \* states in which a download can start (now / at replay)
     /\ \E k \in 1 .. NPE :
-          InitWith([n |-> N, npe |-> k, maxmsg |-> 65536, asis |-> FALSE, guard |-> TRUE], IF lab = "stopping" THEN "down" ELSE lab)
+          InitWith([n |-> N, npe |-> k, maxmsg |-> 65536, asis |-> FALSE, guard |-> TRUE, afpark |-> FALSE], IF lab = "stopping" THEN "down" ELSE lab)
     /\ nmsg = 0 /\ h = << >>
 
 \* one random successor per step (RandomElement): -simulate then costs one state per message
@@ -42,16 +44,20 @@ GenNext ==
        ELSE IF Fired # {} /\ Dice(3) = 1
        THEN /\ UNCHANGED <<nmsg, stopped>>
             /\ \E p \in {RandomElement(Fired)} : SnubDeliver(p) /\ Note([pe |-> p, cls |-> "@snub"])
-       ELSE IF role = "source" /\ nmsg >= 2 /\ peer[1].st = "open" /\ Dice(12) = 1
+       ELSE IF role \in {"source", "afsource"} /\ nmsg >= 2 /\ peer[1].st = "open" /\ Dice(12) = 1
        THEN /\ UNCHANGED <<nmsg, stopped>>
             /\ Disconnect(1) /\ Note([pe |-> 1, cls |-> "@disconnect"])
        ELSE /\ nmsg' = nmsg + 1 /\ UNCHANGED stopped
             \* a random draw is bound by \E over a singleton: a LET definition would be evaluated (drawn) again at
             \* every reference, and the recorded history would not be the one the model executed
-            /\ \E p \in {IF role = "source" /\ (nmsg < 2 \/ Dice(2) = 1) THEN 1 ELSE RandomElement(Peers)} :
+            /\ \E p \in {IF role \in {"source", "afsource"} /\ (nmsg < 2 \/ Dice(2) = 1) THEN 1 ELSE RandomElement(Peers)} :
                \E c \in {CASE role = "source" /\ nmsg = 0 -> RandomElement({x \in Starter : nmsg >= 0})
                            [] role = "source" /\ nmsg = 1 -> "unchoke"
                            [] role = "source" /\ p = 1 /\ Dice(2) = 1 -> RandomElement({x \in {"choke", "unchoke"} : nmsg >= 0})
+                           [] role = "afsource" /\ nmsg = 0 -> RandomElement({x \in AfGrant : nmsg >= 0})
+                           [] role = "afsource" /\ nmsg = 1 -> RandomElement({x \in Starter \ {"have.last"} : nmsg >= 0})
+                           [] role = "afsource" /\ p = 1 /\ Dice(3) # 1
+                                -> RandomElement({x \in {"choke", "unchoke", "piece.alljunk", "unchoke", "choke"} : nmsg >= 0})
                            [] OTHER -> PickClass} :
                   Recv(p, c) /\ Note([pe |-> p, cls |-> c])
 
